@@ -1,5 +1,6 @@
 from __future__ import annotations
 
+from dataclasses import dataclass
 from typing import Awaitable, Callable, Dict, List, Optional, Tuple, Type, Union
 
 import h2
@@ -33,6 +34,15 @@ BUFFER_LOW_WATER = BUFFER_HIGH_WATER / 2
 
 class BufferCompleteError(Exception):
     pass
+
+
+@dataclass
+class _SyntheticRequest:
+    # Stands in for h2.events.RequestReceived (which recent h2 versions do
+    # not allow to be constructed without arguments) for requests that
+    # do not arrive as HTTP/2 frames: h2c upgrades and server pushes.
+    stream_id: int
+    headers: List[Tuple[bytes, bytes]]
 
 
 class StreamBuffer:
@@ -135,9 +145,7 @@ class H2Protocol:
             self.connection.initiate_connection()
         await self._flush()
         if headers is not None:
-            event = h2.events.RequestReceived()
-            event.stream_id = 1
-            event.headers = headers
+            event = _SyntheticRequest(stream_id=1, headers=headers)
             await self._create_stream(event)
             await self.streams[event.stream_id].handle(EndBody(stream_id=event.stream_id))
         self.task_group.spawn(self.send_task)
@@ -320,7 +328,9 @@ class H2Protocol:
             self.priority.block(event.stream_id)
         await self.has_data.set()
 
-    async def _create_stream(self, request: h2.events.RequestReceived) -> None:
+    async def _create_stream(
+        self, request: Union[h2.events.RequestReceived, _SyntheticRequest]
+    ) -> None:
         for name, value in request.headers:
             if name == b":method":
                 method = value.decode("ascii").upper()
@@ -392,9 +402,7 @@ class H2Protocol:
             # push on a push promises request.
             pass
         else:
-            event = h2.events.RequestReceived()
-            event.stream_id = push_stream_id
-            event.headers = request_headers
+            event = _SyntheticRequest(stream_id=push_stream_id, headers=request_headers)
             await self._create_stream(event)
             await self.streams[event.stream_id].handle(EndBody(stream_id=event.stream_id))
             self.keep_alive_requests += 1
